@@ -71,6 +71,11 @@ bb_op(int argc, char **argv)
     } else if (strcmp(op, "bb.clear") == 0) {
         byte_buffer_clear(&bb);
         bb_view(0, NULL, 0, true);
+        /* spec view: clear "empties and zeroes" the buffer - every one of its size octets */
+        int wiped = 1;
+        for (size_t k = 0; bb.data && k < bb.size; ++k)
+            if (bb.data[k] != 0) wiped = 0;
+        printf(" wiped=%d", wiped);
     } else if (strcmp(op, "bb.reset") == 0) {
         byte_buffer_reset(&bb);
         bb_view(0, NULL, 0, false);
